@@ -755,38 +755,87 @@ Qed.
 
 (* a field of datatype varies: VARIES_<j> by its positional path, and no subcomponent path at all
    (the field has no component structure to decode <k> against): ChildNotFound *)
-Lemma traverse_varies_comp k f j :
+Lemma traverse_varies_comp k f j : j <> 0 ->
   f_dt f = Some (unbs "varies") -> base t (Some (unbs "varies")) = false ->
   field_traverse t lvl (S k) f (name_idx (unbs "varies") j) =
   Ok (TChild (mk_sentry (name_idx (unbs "VARIES") j) varies_leaf CMP)).
 Proof.
-  intros D B. cbn [field_traverse].
+  intros Hj D B. cbn [field_traverse].
   assert (U : upper (name_idx (unbs "varies") j) = name_idx (unbs "VARIES") j) by (rewrite name_idx_upper; reflexivity).
   rewrite guard_Field_upper
     by (rewrite U; apply digit_name_not_attr; [apply attrs_no_digit_Field|apply has_digit_name_idx]).
   rewrite U. unfold field_find_child_reference. rewrite D, B.
-  change (is_varies (Some (unbs "varies"))) with true. rewrite valid_child_name_idx.
+  change (is_varies (Some (unbs "varies"))) with true. rewrite valid_child_name_idx by exact Hj.
   reflexivity.
+Qed.
+
+(* VARIES_0 without any premise on the tables: refused, or the DATATYPES entry of that very name *)
+Lemma traverse_varies_comp_0_cases k f :
+  f_dt f = Some (unbs "varies") -> base t (Some (unbs "varies")) = false ->
+  (forall st, f_st f = Some st -> has_map_st st = false) ->
+  field_traverse t lvl (S k) f (name_idx (unbs "varies") 0) = Err (HL7 EChildNotFound)
+  \/ exists e, field_traverse t lvl (S k) f (name_idx (unbs "varies") 0) = Ok (TChild e).
+Proof.
+  intros D B NM. cbn [field_traverse].
+  assert (U : upper (name_idx (unbs "varies") 0) = name_idx (unbs "VARIES") 0) by reflexivity.
+  rewrite guard_Field_upper
+    by (rewrite U; apply digit_name_not_attr; [apply attrs_no_digit_Field|apply has_digit_name_idx]).
+  rewrite U. unfold field_find_child_reference. rewrite D, B.
+  change (is_varies (Some (unbs "varies"))) with true. rewrite valid_child_name_idx_0. cbn [andb].
+  unfold complex_find_child_reference. change (upper (name_idx (unbs "VARIES") 0)) with (name_idx (unbs "VARIES") 0).
+  assert (G : get_traversal_children (f_name f) (name_idx (unbs "varies") 0) = None) by reflexivity.
+  destruct (f_st f) as [st|] eqn:Hst; [rewrite (NM st eq_refl)|];
+    (destruct (slookup (name_idx (unbs "VARIES") 0) (t_components t)); [right; eexists; reflexivity|left; now rewrite G]).
+Qed.
+
+(* positions start at 1: VARIES_0 is no component of a varies field (unless the tables define a
+   datatype of that very name) *)
+Lemma traverse_varies_comp_0 k f :
+  f_dt f = Some (unbs "varies") -> base t (Some (unbs "varies")) = false ->
+  (forall st, f_st f = Some st -> has_map_st st = false) ->
+  slookup (name_idx (unbs "VARIES") 0) (t_components t) = None ->
+  field_traverse t lvl (S k) f (name_idx (unbs "varies") 0) = Err (HL7 EChildNotFound).
+Proof.
+  intros D B NM NC. cbn [field_traverse].
+  assert (U : upper (name_idx (unbs "varies") 0) = name_idx (unbs "VARIES") 0) by reflexivity.
+  rewrite guard_Field_upper
+    by (rewrite U; apply digit_name_not_attr; [apply attrs_no_digit_Field|apply has_digit_name_idx]).
+  rewrite U. unfold field_find_child_reference. rewrite D, B.
+  change (is_varies (Some (unbs "varies"))) with true. rewrite valid_child_name_idx_0. cbn [andb].
+  assert (C : complex_find_child_reference t (f_st f) (name_idx (unbs "VARIES") 0) = Err (HL7 EChildNotFound)).
+  { unfold complex_find_child_reference. change (upper (name_idx (unbs "VARIES") 0)) with (name_idx (unbs "VARIES") 0).
+    destruct (f_st f) as [st|] eqn:Hst; [rewrite (NM st eq_refl)|]; now rewrite NC. }
+  rewrite C. destruct (f_name f); reflexivity.
 Qed.
 
 Lemma positional_varies f fname a b :
   f_name f = Some fname -> upper fname = fname -> bsplit US fname = [a; b] ->
   f_dt f = Some (unbs "varies") -> base t (Some (unbs "varies")) = false ->
   (forall st, f_st f = Some st -> has_map_st st = false) ->
-  (forall j, field_find_child_reference t f (name_idx fname j) = Err (HL7 EChildNotFound) ->
+  (forall j, j <> 0 -> field_find_child_reference t f (name_idx fname j) = Err (HL7 EChildNotFound) ->
              field_getattr t lvl f (name_idx fname j) =
              Ok (TChild (mk_sentry (name_idx (unbs "VARIES") j) varies_leaf CMP)))
+  /\ (slookup (name_idx (unbs "VARIES") 0) (t_components t) = None ->
+      field_find_child_reference t f (name_idx fname 0) = Err (HL7 EChildNotFound) ->
+      field_getattr t lvl f (name_idx fname 0) = Err (HL7 EChildNotFound))
   /\ (forall j k, field_find_child_reference t f (name_idx (name_idx fname j) k) = Err (HL7 EChildNotFound) ->
                   field_getattr t lvl f (name_idx (name_idx fname j) k) = Err (HL7 EChildNotFound)).
 Proof.
-  intros Hn U S D B NM. unfold field_getattr. split.
-  - intros j H. rewrite (traverse_positional_comp 2 f fname a b j _ Hn U S D B H).
+  intros Hn U S D B NM. unfold field_getattr. split; [|split].
+  - intros j Hj H. rewrite (traverse_positional_comp 2 f fname a b j _ Hn U S D B H).
     now apply traverse_varies_comp.
+  - intros NC H. rewrite (traverse_positional_comp 2 f fname a b 0 _ Hn U S D B H).
+    now apply traverse_varies_comp_0.
   - intros j k H. rewrite (traverse_positional_sub 2 f fname a b j k _ Hn U S D B H).
-    rewrite (traverse_varies_comp 1 f j D B). cbn [bind].
-    unfold designated_component_ref. destruct (f_st f) as [st|] eqn:Hst; [|reflexivity].
-    now rewrite (NM st eq_refl).
+    assert (DR : forall cn, designated_component_ref f cn = Err (HL7 EChildNotFound)).
+    { intros cn. unfold designated_component_ref. destruct (f_st f) as [st|] eqn:Hst; [|reflexivity].
+      now rewrite (NM st eq_refl). }
+    destruct (Nat.eq_dec j 0) as [->|Hj].
+    + destruct (traverse_varies_comp_0_cases 1 f D B NM) as [T|[e' T]]; rewrite T; cbn [bind]; [reflexivity|].
+      now rewrite DR.
+    + rewrite (traverse_varies_comp 1 f j Hj D B). cbn [bind]. now rewrite DR.
 Qed.
+
 
 (* a field of base datatype: <field>_1 is its one component; every other index, and every
    subcomponent path, designates nothing *)
@@ -921,14 +970,35 @@ Qed.
 Lemma check_segment_spec p :
   fst (fst (check_segment t p)) = [] ->
   exists s, parent_segment t (fst p) = Ok s /\ has_map_st (s_st s) = true /\ keys_ok (s_st s) = true /\
+            unplain_refused t s (fst p) = true /\
             forall e, In e (entries (s_st s)) ->
                       row_reached (resolve t lvl (PSeg s)) reserved_Segment (entries (s_st s)) e.
 Proof.
   unfold check_segment. destruct (parent_segment t (fst p)) as [s|x]; [|discriminate].
   destruct (has_map_st (s_st s) && keys_ok (s_st s)) eqn:E; [|discriminate].
-  apply andb_prop in E. destruct E as [M K]. cbn [fst]. intros H.
-  exists s. split; [reflexivity|]. split; [exact M|]. split; [exact K|]. intros e I. apply row_check_spec.
+  apply andb_prop in E. destruct E as [M K]. cbn [fst snd]. intros H.
+  apply app_eq_nil in H. destruct H as [H Hu].
+  exists s. split; [reflexivity|]. split; [exact M|]. split; [exact K|].
+  split; [destruct (unplain_refused t s (fst p)); [reflexivity|discriminate]|].
+  intros e I. apply row_check_spec.
   exact (check_rows_ok _ _ _ _ H e I).
+Qed.
+
+(* what a refused probe says *)
+Lemma refused_spec r : refused r = true -> exists x, r = Err x /\ not_such x.
+Proof.
+  destruct r as [v|[c| | |]]; try discriminate. destruct c; try discriminate; intros _; eexists; split; try reflexivity.
+  - now left.
+  - now right.
+Qed.
+
+Lemma unplain_refused_spec s name : unplain_refused t s name = true ->
+  forall sfx, In sfx unplain_probes -> forall n, n = name ++ sfx \/ n = lower name ++ sfx ->
+  exists x, resolve t lvl (PSeg s) n = Err x /\ not_such x.
+Proof.
+  unfold unplain_refused. intros H sfx I n Hn. rewrite forallb_forall in H. specialize (H sfx I).
+  apply andb_prop in H. destruct H as [H1 H2]. cbn [resolve].
+  destruct Hn as [->| ->]; now apply refused_spec.
 Qed.
 
 (* ---- complex datatypes seen from a field ---- *)
